@@ -384,9 +384,17 @@ class World:
         return ""
 
     def check_derived_refresh(self, e, der, ctx):
-        """Derived state of a non-target changed: fine iff it is now coherent."""
+        """Derived state (ghost layer, cached boundary term) of a non-target
+        changed.  At the solver entry points a lazy refresh to the coherent
+        state is not a modification (it is what solveExplicitPDE does to its
+        input); builders, operators and copy() are pure by contract: a builder
+        that refreshes its argument makes the *next* builder call with the same
+        visible inputs return something else (C15 "repeated calls with equal
+        inputs return bit-identical results", C14 "never change their operands")."""
         twin, exc = self.twin_of(e)
         ok = False
+        if ctx.op["k"] not in ("solve", "explicit", "apply", "bc_untracked", "finish"):
+            twin = None
         if twin is not None:
             ok = same(A.full_array(e.obj), A.full_array(twin))
             c = A.cache_of(e.obj)
@@ -427,7 +435,7 @@ class World:
                         rel = "parent-of-target"
         algebra = k in ("binop", "unop", "eval", "copy")
         if not algebra and k in ("bc_edit", "bc_util", "bc_periodic", "val_edit",
-                                 "scribble", "view_write", "bc_scale"):
+                                 "scribble", "view_write", "bc_scale", "bc_untracked"):
             # an edit leaked into another object: who made them alias?
             how = self._alias_origin(ctx, e)
             if how == "copy":
@@ -550,6 +558,25 @@ class World:
             self.flag("C03", "I4", sig, {"var": e.name, "side": side, "residual": res,
                                          "all": bad[:6]})
             return
+        # after apply_BCs the solver's boundary equations follow the stored (a, b, c)
+        # too: observable only through a solve, taken on a deep copy
+        if self.prop == "C03" and ctx.op["k"] in ("apply", "bc_untracked") \
+                and not e.meta.get("noprecalc") and np.all(np.isfinite(full)):
+            tw, _ = self.twin_of(e)
+            if tw is not None:
+                try:
+                    terms = self.shadow_terms(tw, ment.obj)
+                    sh = copy.deepcopy(e.obj)
+                    self.pf.solvePDE(tw, terms)
+                    self.pf.solvePDE(sh, terms)
+                    okk = same(A.full_array(sh), A.full_array(tw))
+                except Exception:
+                    okk = True
+                self.oracle_runs["I4-solver-rows"] += 1
+                if not okk:
+                    self.flag("C03", "I4", "%s/%s/solver-rows/%s" % (cls, ctx.op["k"], flags),
+                              {"var": e.name})
+                    return
         # plot profile boundary entries are the face averages
         try:
             prof = e.obj.plotprofile()
@@ -762,8 +789,8 @@ class World:
                 self.probes["var:integer-array-input" + (":with-ghosts" if ghosts else "")] += 1
         args = [ment.obj, val]
         origin = "default"
-        if a.get("bc"):
-            bent = self.get(a["bc"], "b")
+        if a.get("bc") or a.get("bcv"):
+            bent = self.get(a["bc"] if a.get("bc") else self.get(a["bcv"], "v").meta["bc"], "b")
             if bent.meta["mesh"] != ment.name:
                 raise Skip("bc on other mesh")
             args.append(bent.obj)
@@ -813,8 +840,15 @@ class World:
         return [(d[0] + 1, d[1], d[2]), (d[0], d[1] + 1, d[2]), (d[0], d[1], d[2] + 1)]
 
     # ------------------------------------------------------------ op: BC edits
+    def _bc_name(self, a):
+        """BC entry addressed by an op: by name ("b") or through a variable
+        ("bv": `v.BCs...`), which is how stratified plans follow a re-bound role."""
+        if "bv" in a:
+            return self.get(a["bv"], "v").meta["bc"]
+        return a["b"]
+
     def _bc_face(self, a):
-        bent = self.get(a["b"], "b")
+        bent = self.get(self._bc_name(a), "b")
         nd = len(self.get(bent.meta["mesh"], "m").meta["faces"])
         side = a["side"]
         if A.SIDE_AXIS[side] >= nd:
@@ -1022,6 +1056,45 @@ class World:
                 self.flag("C03", "I4", "%s/scale3/solution-changed" % cls,
                           {"var": s, "maxdiff": maxdiff(A.full_array(sh2), x_sh)})
                 return
+
+    def op_bc_untracked(self, a, op, ctx):
+        """A coefficient array is changed by an operation the dirty-bit tracking
+        documents it cannot see (arr.fill, np.copyto, in-place ufunc with out=),
+        immediately followed by one of the two documented remedies: setting
+        `arr.modified = True` by hand, or calling apply_BCs() on the variables that
+        use these BCs (C03: after apply_BCs the ghost values *and* the solver's
+        boundary equations follow whatever a, b, c are now stored)."""
+        bent, face = self._bc_face(a)
+        arr = getattr(face, a["coef"])
+        how = a["how"]
+        val = self._val(a["val"], arr.shape)
+        if how == "fill":
+            arr.fill(float(np.asarray(val).ravel()[0]))
+        elif how == "copyto":
+            np.copyto(arr, val)
+        elif how == "ufunc_out":
+            np.add(np.asarray(val) - np.asarray(arr), arr, out=arr)
+        elif how == "put":
+            np.put(arr, np.arange(arr.size), np.broadcast_to(val, arr.shape).ravel())
+        else:
+            raise Skip("unknown how")
+        self._mark_bc_edit(bent, "untracked-" + how, ctx)
+        self.probes["edit:untracked:" + how + ":" + a.get("remedy", "apply")] += 1
+        if a.get("remedy") == "flag":
+            arr.modified = True
+            return
+        for s in self.sharers(bent.name):
+            ve = self.ents[s]
+            try:
+                ve.obj.apply_BCs()
+            except Exception as ex:
+                ctx.status = "raised:" + type(ex).__name__
+                self._note_consumer_fault(ve, ctx)
+            else:
+                ve.meta["ghost_trusted"] = True
+                ctx.i4.append(s)
+            ve.meta["last_consume"] = self.step
+            ctx.derived.add(s)
 
     def op_view_take(self, a, op, ctx):
         bent, face = self._bc_face(a)
@@ -1675,18 +1748,14 @@ class World:
                     pass
             ctx.i4.append(e.name)
         else:
-            # copy(): equal in all visible state; ghost layer equal to the original's
+            # copy(): equal in everything observable - the ghost layer too, which
+            # plotprofile(), the means and gradientTerm() of the copy read (a copy
+            # that recomputes it differs from its original whenever the original's
+            # ghost cells are not what its BCs dictate: solveMatrixPDE results,
+            # ghost-including constructor, a pending BC edit)
             orig = self.ents[parents[0]]
             if not exact(A.full_array(res), A.full_array(orig.obj)):
-                # ... or the coherent one (a copy() that re-applies the BCs is fine)
-                fresh = False
-                try:
-                    tw = O.build_twin(pf, ment.obj, self.ents[e.meta["bc"]].meta["state"], got)
-                    fresh = same(A.full_array(res), A.full_array(tw))
-                except Exception:
-                    pass
-                if not fresh:
-                    self.flag(("C14", "C09"), "I2", label + "/ghost", {"op": op})
+                self.flag(("C14", "C09"), "I2", label + "/ghost", {"op": op})
             e.meta["ghost_trusted"] = orig.meta.get("ghost_trusted", True)
             e.meta["last_consume"] = orig.meta.get("last_consume", -1)
             e.meta["last_val_edit"] = orig.meta.get("last_val_edit", -1)
